@@ -83,11 +83,19 @@ var model = porcupine.Model{
 }
 
 type recorder struct {
-	clock int64
-	ops   []porcupine.Operation
+	clock    int64
+	ops      []porcupine.Operation
+	h        *dbh.H
+	maintErr string
 }
 
 func (r *recorder) do(client int, db *NoKV.DB, i in) {
+	if i.op == "maint" { // a maintenance transition is not a register operation: not part of the history
+		if _, err := r.h.Maint(i.key); err != nil {
+			r.maintErr = fmt.Sprintf("%s: %v", i.key, err)
+		}
+		return
+	}
 	r.clock++
 	call := r.clock
 	var o out
@@ -127,11 +135,20 @@ func scenarios(thorough bool) []scen {
 		{"set-a|set-b|get-a,get-b", base, nil, [][]in{{{"set", "a", "1"}}, {{"set", "b", "1"}}, {{"get", "b", ""}, {"get", "a", ""}}}, false},
 		{"throttle:set|get", base, []in{{"set", "a", "0"}}, [][]in{{{"set", "a", "1"}}, {{"get", "a", ""}}}, true},
 		{"toobig:set|get", tiny, nil, [][]in{{{"set", "a", "1"}}, {{"get", "a", ""}}}, false},
+		// a compaction runs concurrently with readers (level-handler locks are scheduling points)
+		{"compact:ingest-drain|get,get", base, []in{{"set", "a", "1"}, {"maint", "rf", ""}, {"maint", "l0-base", ""}},
+			[][]in{{{"maint", "ingest-drain:6", ""}}, {{"get", "a", ""}, {"get", "a", ""}}}, false},
+		{"compact:l0-base|get,get", base, []in{{"set", "a", "1"}, {"maint", "rf", ""}, {"maint", "l0-base", ""}, {"set", "a", "2"}, {"maint", "rf", ""}},
+			[][]in{{{"maint", "l0-base", ""}}, {{"get", "a", ""}, {"get", "a", ""}}}, false},
 	}
 	if thorough {
 		s = append(s,
 			scen{"set,set|set|get", base, nil, [][]in{{{"set", "a", "1"}, {"set", "a", "2"}}, {{"set", "a", "3"}}, {{"get", "a", ""}}}, false},
 			scen{"set|del|get,get", base, []in{{"set", "a", "0"}}, [][]in{{{"set", "a", "1"}}, {{"del", "a", ""}}, {{"get", "a", ""}, {"get", "a", ""}}}, false},
+			scen{"compact:drain-into-main|get|set", base, []in{{"set", "a", "1"}, {"maint", "rf", ""}, {"maint", "l0-base", ""}, {"maint", "ingest-drain:6", ""}, {"set", "a", "2"}, {"maint", "rf", ""}, {"maint", "l0-base", ""}},
+				[][]in{{{"maint", "ingest-drain:6", ""}}, {{"get", "a", ""}, {"get", "a", ""}}, {{"set", "b", "1"}}}, false},
+			scen{"flush|get,get", base, []in{{"set", "a", "1"}, {"maint", "rotate", ""}},
+				[][]in{{{"maint", "flush", ""}}, {{"get", "a", ""}, {"get", "a", ""}}}, false},
 		)
 	}
 	return s
@@ -142,6 +159,7 @@ func setupFor(sc scen, base string, hist *[]string) func() *schedmc.Exec {
 		rec := &recorder{}
 		s := &dbsched.Scenario{Name: sc.name, Cfg: sc.cfg}
 		s.Prepare = func(db *NoKV.DB) {
+			rec.h = s.H
 			for _, i := range sc.prepare {
 				rec.do(99, db, i)
 			}
@@ -165,11 +183,15 @@ func setupFor(sc scen, base string, hist *[]string) func() *schedmc.Exec {
 				return "close-error", closeErr.Error()
 			}
 			want := 0
-			for _, c := range sc.clients {
-				want += len(c)
+			for _, c := range append([][]in{sc.prepare}, sc.clients...) {
+				for _, i := range c {
+					if i.op != "maint" {
+						want++
+					}
+				}
 			}
-			if len(rec.ops) != want+len(sc.prepare) {
-				return "call-missing", fmt.Sprintf("%d of %d calls returned", len(rec.ops), want+len(sc.prepare))
+			if len(rec.ops) != want {
+				return "call-missing", fmt.Sprintf("%d of %d calls returned", len(rec.ops), want)
 			}
 			if !porcupine.CheckOperations(model, rec.ops) {
 				return "not-linearizable", "history is not linearizable: " + describe(rec.ops)
